@@ -11,7 +11,7 @@ open CprocVerif.LowerArith CprocVerif.LowerMach CprocVerif.LowerMem
 
 /-- an outcome other than `normal` reached without a pending jump does not depend on where the
     statement ends -/
-theorem Post.abnormal {T : Stat} {lp : Bool} {brk cont : String} {st0 : State} {pos pos' : List Item}
+theorem Post.abnormal {T : Stat} {lp : Bool × Bool} {brk cont : String} {st0 : State} {pos pos' : List Item}
     {o o' : SCtx} {out : CSem2.Outcome} (h : Post T lp brk cont st0 pos o out) (hj : o.jump = none)
     (hn : ∀ s', out ≠ .normal s') : Post T lp brk cont st0 pos' o' out := by
   cases out with
@@ -53,16 +53,72 @@ theorem Ext.first {T : Stat} {c1 : SCtx} {st : Stmt} {o : SOut} (h : Ext T o.ctx
   obtain ⟨new, h1, _, h3, _⟩ := g.slots
   exact h.before h1 (fun sl hsl => (h3 sl hsl).1) g.lastid
 
+/-- an outcome other than `normal` that has left the statement, whatever the lowering context -/
+theorem Done.post_abnormal {T : Stat} {lp : Bool × Bool} {brk cont : String} {st0 : State}
+    {pos pos' : List Item} {o : SCtx} {out : CSem2.Outcome} (h : Done T lp brk cont st0 pos out)
+    (hn : ∀ s', out ≠ .normal s') : Post T lp brk cont st0 pos' o out := by
+  cases out with
+  | normal s' => exact absurd rfl (hn s')
+  | brk s' =>
+    obtain ⟨h0, n, env', M', st, h1, h2, h3⟩ := h
+    exact ⟨h0, n, env', M', h1, Or.inr ⟨st, h2, h3⟩⟩
+  | cont s' =>
+    obtain ⟨h0, n, env', M', st, h1, h2, h3⟩ := h
+    exact ⟨h0, n, env', M', h1, Or.inr ⟨st, h2, h3⟩⟩
+  | ret v =>
+    obtain ⟨n, st, r, h1, h2, h3⟩ := h
+    exact ⟨n, Or.inr ⟨st, r, h1, h2, h3⟩⟩
+
+/-- a statement ending in `return`/`break`/`continue` does not complete normally -/
+theorem endsJump_abnormal (cs : Bool) : ∀ (n : Nat) (a : Stmt) (s : Store) (o : CSem2.Outcome),
+    a.endsJump = true → exec cs n s a = some o → ∀ s', o ≠ .normal s' := by
+  intro n
+  induction n with
+  | zero => intro a s o _ h; simp only [exec] at h; cases h
+  | succ n ih =>
+    intro a s o he h s' hs'
+    subst hs'
+    cases a <;> simp only [Stmt.endsJump, Bool.false_eq_true] at he
+    · simp only [exec, Option.map_eq_some_iff] at h
+      obtain ⟨v, _, h2⟩ := h; cases h2
+    · rename_i x y
+      simp only [exec] at h
+      cases hx : exec cs n s x with
+      | none => rw [hx] at h; cases h
+      | some ox =>
+        rw [hx] at h
+        cases ox with
+        | normal s'' => exact ih y s'' _ he h s' rfl
+        | brk _ => cases h
+        | cont _ => cases h
+        | ret _ => cases h
+    · simp only [exec] at h; cases h
+    · simp only [exec] at h; cases h
+
+/-- a statement that begins with a label emits that label first -/
+theorem startsLabel_items (cs : Bool) (st : Stmt) : ∀ (brk cont : String) (c : SCtx),
+    st.startsLabel = true → ∃ l rest, (funcstmt cs brk cont st c).items = labelItem c l :: rest := by
+  induction st with
+  | seq a b iha _ =>
+    intro brk cont c h
+    obtain ⟨l, rest, h1⟩ := iha brk cont c (by simpa [Stmt.startsLabel] using h)
+    exact ⟨l, rest ++ (funcstmt cs brk cont b (funcstmt cs brk cont a c).ctx).items, by
+      simp only [funcstmt, h1, List.cons_append]⟩
+  | case_ u => intro brk cont c _; exact ⟨_, [], rfl⟩
+  | default_ => intro brk cont c _; exact ⟨_, [], rfl⟩
+  | _ => intro brk cont c h; simp [Stmt.startsLabel] at h
+
 section
 variable (T : Stat)
 
-theorem sim_seq (n : Nat) (ih : SimStmt T n) (a b : Stmt) {s : Store} {out : CSem2.Outcome} {lp : Bool}
-    {brk cont : String} {c : SCtx} {nd nd' : Nat} {pre post : List Item} {env : Env} {M : Mem}
+theorem sim_seq (n : Nat) (ih : SimStmt T n) (a b : Stmt) {s : Store} {out : CSem2.Outcome}
+    {lp : Bool × Bool} {brk cont : String} {c : SCtx} {nd nd' : Nat} {pre post : List Item} {env : Env}
+    {M : Mem}
     (hex : exec T.S.cs (n + 1) s (.seq a b) = some out) (hfr : frag (.seq a b) = true)
-    (hwt : Stmt.wt T.vtys T.ret lp nd (.seq a b) = some nd') (hp : Pos T c nd pre)
+    (hwt : Stmt.wt T.vtys T.ret lp.1 lp.2 nd (.seq a b) = some nd') (hp : Pos T c nd pre)
     (hext : Ext T (funcstmt T.S.cs brk cont (.seq a b) c).ctx)
     (hits : T.S.its = pre ++ (funcstmt T.S.cs brk cont (.seq a b) c).items ++ post)
-    (hlp : lp = true → CanJump T.S brk ∧ CanJump T.S cont)
+    (hlp : (lp.1 = true → CanJump T.S brk) ∧ (lp.2 = true → CanJump T.S cont))
     (inv : SInv T.S.cs T.σ T.vtys s env M) :
     Post T lp brk cont (T.at env M pre) (pre ++ (funcstmt T.S.cs brk cont (.seq a b) c).items)
       (funcstmt T.S.cs brk cont (.seq a b) c).ctx out := by
@@ -73,11 +129,15 @@ theorem sim_seq (n : Nat) (ih : SimStmt T n) (a b : Stmt) {s : Store} {out : CSe
   · rename_i hej
     simp only [Option.bind_eq_some_iff] at hwt
     obtain ⟨n1, hwa, hwb⟩ := hwt
-    obtain ⟨hna, hca⟩ := wt_noDead _ _ a _ _ _ hwa
-    obtain ⟨hnb, hcb⟩ := wt_noDead _ _ b _ _ _ hwb
+    obtain ⟨hna, hca⟩ := wt_noDead _ _ a _ _ _ _ hwa
+    obtain ⟨hnb, hcb⟩ := wt_noDead _ _ b _ _ _ _ hwb
     have ga := funcstmt_good T.S.cs a brk cont c hp.jump hna
-    have hja := ga.jump (by simpa using hej)
-    have gb := funcstmt_good T.S.cs b brk cont _ hja hnb
+    have hdis : a.endsJump = false ∨ b.startsLabel = true := by
+      cases ha : a.endsJump <;> cases hb : b.startsLabel <;> simp [ha, hb] at hej ⊢
+    have gb := funcstmt_good' T.S.cs b brk cont (funcstmt T.S.cs brk cont a c).ctx (by
+      rcases hdis with h | h
+      · exact Or.inl (ga.jump h)
+      · exact Or.inr h) hnb
     simp only [funcstmt] at hext hits ⊢
     have hexta : Ext T (funcstmt T.S.cs brk cont a c).ctx := hext.first gb
     have hitsa : T.S.its = pre ++ (funcstmt T.S.cs brk cont a c).items ++
@@ -89,30 +149,50 @@ theorem sim_seq (n : Nat) (ih : SimStmt T n) (a b : Stmt) {s : Store} {out : CSe
     | some oa =>
       rw [hea] at hex
       have pa := ih a s oa lp brk cont c nd n1 pre _ env M hea hfr.1 hwa hp hexta hitsa hlp inv
-      cases oa with
-      | normal s' =>
-        simp only at hex
-        obtain ⟨_, k, env', M', hreach, inv'⟩ := pa
-        have hpb : Pos T (funcstmt T.S.cs brk cont a c).ctx n1 (pre ++ (funcstmt T.S.cs brk cont a c).items) :=
-          hp.after ga hja hca
-        have hitsb : T.S.its = (pre ++ (funcstmt T.S.cs brk cont a c).items) ++
-            (funcstmt T.S.cs brk cont b (funcstmt T.S.cs brk cont a c).ctx).items ++ post := by
-          rw [hits]; simp only [List.append_assoc]
-        have pb := ih b s' out lp brk cont _ n1 nd' _ post env' M' hex hfr.2 hwb hpb hext hitsb hlp inv'
-        rw [← List.append_assoc]
-        exact pb.prepend hreach
-      | brk s' =>
-        simp only [Option.some.injEq] at hex
-        subst hex
-        exact pa.abnormal hja (by intro s'' h; cases h)
-      | cont s' =>
-        simp only [Option.some.injEq] at hex
-        subst hex
-        exact pa.abnormal hja (by intro s'' h; cases h)
-      | ret v =>
-        simp only [Option.some.injEq] at hex
-        subst hex
-        exact pa.abnormal hja (by intro s'' h; cases h)
+      by_cases hej' : a.endsJump = true
+      · -- `a` ends in a jump statement: `b` begins with the label that closes the block
+        have hsl : b.startsLabel = true := by
+          rcases hdis with h | h
+          · rw [hej'] at h; cases h
+          · exact h
+        have hab := endsJump_abnormal T.S.cs n a s oa hej' hea
+        have hout : out = oa := by
+          cases oa with
+          | normal s' => exact absurd rfl (hab s')
+          | brk _ => simpa using hex.symm
+          | cont _ => simpa using hex.symm
+          | ret _ => simpa using hex.symm
+        subst hout
+        obtain ⟨l, rest, hl⟩ := startsLabel_items T.S.cs b brk cont (funcstmt T.S.cs brk cont a c).ctx hsl
+        have hitsl : T.S.its = (pre ++ (funcstmt T.S.cs brk cont a c).items) ++
+            .lbl (funcstmt T.S.cs brk cont a c).ctx.jump l [] :: (rest ++ post) := by
+          rw [hitsa, hl]; simp only [labelItem, List.append_assoc, List.cons_append]
+        exact (pa.close hitsl hlp).post_abnormal hab
+      · have hja := ga.jump (by simpa using hej')
+        cases oa with
+        | normal s' =>
+          simp only at hex
+          obtain ⟨_, k, env', M', hreach, inv'⟩ := pa
+          have hpb : Pos T (funcstmt T.S.cs brk cont a c).ctx n1 (pre ++ (funcstmt T.S.cs brk cont a c).items) :=
+            hp.after ga hja hca
+          have hitsb : T.S.its = (pre ++ (funcstmt T.S.cs brk cont a c).items) ++
+              (funcstmt T.S.cs brk cont b (funcstmt T.S.cs brk cont a c).ctx).items ++ post := by
+            rw [hits]; simp only [List.append_assoc]
+          have pb := ih b s' out lp brk cont _ n1 nd' _ post env' M' hex hfr.2 hwb hpb hext hitsb hlp inv'
+          rw [← List.append_assoc]
+          exact pb.prepend hreach
+        | brk s' =>
+          simp only [Option.some.injEq] at hex
+          subst hex
+          exact pa.abnormal hja (by intro s'' h; cases h)
+        | cont s' =>
+          simp only [Option.some.injEq] at hex
+          subst hex
+          exact pa.abnormal hja (by intro s'' h; cases h)
+        | ret v =>
+          simp only [Option.some.injEq] at hex
+          subst hex
+          exact pa.abnormal hja (by intro s'' h; cases h)
 
 end
 
